@@ -2,11 +2,13 @@ import os, sys
 sys.path.insert(0, os.path.dirname(__file__))
 from _common import *
 from C14 import gen_config, LEN_DURATION_CUT, CFG
+from C02 import SLICE_UNIT
 SPEC = {
     'id': 'C13',
     'outside': 'umask, kernel semantics of the mode on existing files, the FileManager literals in MainEventLoop::new (async constructor with file I/O)',
     'assumptions': ['std::hash::RandomState::new stubbed'],
     'units': [
+        SLICE_UNIT,
         {
             'name': 'getters', 'edits': [LEN_DURATION_CUT], 'harness_files': {CFG: 'harness/config.rs'}, 'gen': gen_config,
             'harnesses': [
